@@ -19,14 +19,22 @@ def main():
     from jugverif import hashmodel as hm
     specs = json.load(open(sys.argv[1]))
     order_seed = int(sys.argv[2])
-    out = []
-    for i, s in enumerate(specs):
+    # the order in which a process computes identifiers must not matter either (argv[3]: fwd | rev | shuf<seed>)
+    visit = sys.argv[3] if len(sys.argv) > 3 else 'fwd'
+    idxs = list(range(len(specs)))
+    if visit == 'rev':
+        idxs.reverse()
+    elif visit.startswith('shuf'):
+        random.Random(int(visit[4:] or 0)).shuffle(idxs)
+    out = [None] * len(specs)
+    for i in idxs:
+        s = specs[i]
         rng = random.Random(order_seed * 1000003 + i) if order_seed >= 0 else None
         try:
             v = hm.build(tojson_spec(s), rng)
-            out.append(real_hash(v))
+            out[i] = real_hash(v)
         except Exception as e:
-            out.append('EXC %s: %s' % (type(e).__name__, e))
+            out[i] = 'EXC %s: %s' % (type(e).__name__, e)
         del jug.task.alltasks[:]
     print(json.dumps(out))
 
